@@ -34,6 +34,8 @@ TEMPLATES = [
     ('{0}-{1}+{2}*pi', 3, lambda a, b, c: a - b + c * math.pi),
     ('2*{0}', 1, lambda a: 2 * a),
     ('{0}+0*{1}', 2, lambda a, b: a + 0 * b),
+    ('{0}+1k', 1, lambda a: a + 1000.0),
+    ('2m*{0}+5%', 1, lambda a: 0.002 * a + 0.05),
 ]
 CONSTANTS = {'c0': 7.5, 'pi': math.pi, 'e': math.e, 'i': 1j, 'j': 1j, 'kk': -3.0}
 TAP = {'records': []}
@@ -134,7 +136,7 @@ def run_direct(ctx):
             symbols = [names[k] for k in order]
             sf = build_sample_from(variables)
             nsamples = rng.randint(1, 4)
-            out = lib.call(ctx, gen_symbols_samples, symbols, nsamples, sf, DEFAULT_FUNCTIONS, {'%': 0.01}, CONSTANTS)
+            out = lib.call(ctx, gen_symbols_samples, symbols, nsamples, sf, DEFAULT_FUNCTIONS, {'%': 0.01, 'k': 1000.0, 'm': 0.001}, CONSTANTS)
             ctx.ev()
             ctx.count('direct_configs')
             wit = {'declaration_order': symbols,
@@ -160,6 +162,8 @@ def run_cycles(ctx):
         ('dangling_chain', {'x': 'y+1', 'y': 'nope*2'}), ('dangling_and_cycle', {'x': 'y+1', 'y': 'x+zz'}),
         ('cycle_through_constant_name', {'x': 'e+1', 'e': 'x+1'}), ('constant_shadow_chain', {'b': 'a+1', 'c': 'b+1'}),
         ('dangling_function', {'x': 'zork(2)+1'}), ('dependent_formula_error', {'x': '1/0'}),
+        ('resolvable_plus_dangling', {'p': 'a+1', 'x': 'zz+1'}), ('resolvable_plus_cycle', {'p': 'a+1', 'x': 'y+1', 'y': 'x+1'}),
+        ('chain_then_dangling', {'p': 'a+1', 'q': 'p*2', 'x': 'q+zz'}), ('two_resolvable_plus_self', {'p': 'a+1', 'q': 'a*2', 'x': 'x+p'}),
     ]
     for i in range(ctx.n(1600, 16000)):
         kind, dep = shapes[i % len(shapes)]
@@ -294,7 +298,7 @@ def run_graders(ctx):
             ans = '+'.join(names)
             try:
                 g = FormulaGrader(answers=ans, variables=order, sample_from=sf, user_constants={'c0': 7.5, 'kk': -3.0} if 'kk' not in names else {'c0': 7.5},
-                                  samples=2, suppress_warnings=True)
+                                  samples=2, suppress_warnings=True, metric_suffixes=True)
             except Exception as exc:  # noqa
                 ctx.violation('C13:grader:dag:constructor', repr(exc), {'order': order})
                 continue
